@@ -356,6 +356,15 @@ def run_flags(case):
     f2 = new_flag()
     f2.parse([ser])
     obs['config_str_roundtrip'] = graphs.canon(f2.value) == graphs.canon(cur)
+    # ONE serializer used again after the configuration was edited in place (a later set:, a
+    # mutating fiddler, a direct edit): the new value parses back to the edited configuration
+    if obs['config_str_roundtrip'] is True and isinstance(cur, fdl.Buildable):
+      one = fdl_flags.FiddleFlagSerializer()
+      one.serialize(cur)
+      cur.extra_edit = r.randint(100, 999)
+      f3 = new_flag()
+      f3.parse([one.serialize(cur)])
+      obs['config_str_roundtrip'] = graphs.canon(f3.value) == graphs.canon(cur) or 'stale after an in-place edit'
   except Exception as e:
     obs['config_str_roundtrip'] = f'raised {type(e).__name__}'
   # error clauses
